@@ -12,12 +12,17 @@ CONSTANTS
   PhaseMaps <- Ph1
   ReKVals <- NoReK
   MaxHist = 0
+  NameMap <- NmId
+  PForms <- PfMa
+  Containers <- CtList
+  OvKVals <- Ov3
 INVARIANT PolyAgreesWithFold
 INVARIANT PermutationInvariant
 INVARIANT InactiveNotInExponent
 INVARIANT UntouchedGetNothing
 INVARIANT FeedExact
 INVARIANT CurrentConstantRules
+INVARIANT StoichDecomposes
 INVARIANT NetCountsInactive
 INVARIANT PointSeparates
 INVARIANT PolysNormal
